@@ -41,7 +41,7 @@ Matches(m, e) ==
        [] e.k = "fwait" -> m.loc = e.loc /\ m.i = e.i /\ m.a = e.a /\ m.v = e.v /\ m.ok = e.ok
        [] e.k = "fret" -> m.loc = e.loc /\ m.i = e.i /\ m.ok = e.ok
        [] e.k = "fwake" -> m.loc = e.loc /\ m.i = e.i /\ m.v = e.v
-       [] e.k \in {"sleep", "yield", "clock", "cbm", "tick"} -> TRUE
+       [] e.k \in {"sleep", "yield", "clock", "cbm", "tick", "spur"} -> TRUE
        [] e.k = "call" -> m.op = e.op /\ m.n = e.n
        [] e.k = "ret" -> m.op = e.op /\ m.n = e.n /\ m.res = e.res
        [] e.k \in {"cbb", "cbe"} -> m.op = e.op /\ m.i = e.i /\ m.n = e.n /\ m.vals = e.vals
